@@ -161,4 +161,213 @@ theorem C08_metadata_request (s : SrcSt) : handleSegmentReq (0, 0) s = prepareMe
 /-- non-vacuity: a 10-byte request at offset 3 with segment length 4 is served as (3,4) (7,4) (11,2) -/
 example : chunkRanges 4 10 3 10 = [(3, 4), (7, 4), (11, 2)] := by decide
 
+/-! ## A NAK with any number of requests, at every step of the sender -/
+
+/-- the request is the metadata request or lies within the data sent so far -/
+def ValidReq (progress : Nat) (r : Nat × Nat) : Prop := r = (0, 0) ∨ (r.1 ≤ r.2 ∧ r.2 ≤ progress)
+
+/-- what the sender re-sends for one request: the original Metadata PDU for `(0,0)`, the File Data
+PDUs tiling `[a, b)` otherwise -/
+def answer (p : Params) (rc : RemoteCfg) (req : PutReq) (src dst : String) (F : List UInt8) (r : Nat × Nat) :
+    List Pdu :=
+  if r = (0, 0) then [mkMd p.conf p.closure rc.cks p.fileSize (some src) (some dst) (some (req.msgs.getD []))]
+  else chunkPdus p.conf F p.segmentLen (r.2 - r.1) r.1 (r.2 - r.1)
+
+/-- the sender with these PDUs appended to its queue -/
+def queued (s : SrcSt) (l : List Pdu) : SrcSt :=
+  { s with queue := s.queue ++ l, numReady := s.numReady + l.length }
+
+theorem queued_nil (s : SrcSt) : queued s [] = s := by simp [queued]
+
+theorem queued_queued (s : SrcSt) (l m : List Pdu) : queued (queued s l) m = queued s (l ++ m) := by
+  simp [queued, List.append_assoc]; omega
+
+/-- one valid request, served (metadata request included) -/
+theorem C08_request_answered (s : SrcSt) (rc : RemoteCfg) (req : PutReq) (src dst : String) (F : List UInt8)
+    (r : Nat × Nat) (hreq : s.putReq = some req) (hsrc : req.src = some src) (hdst : req.dst = some dst)
+    (hrc : s.p.remoteCfg = some rc) (hfile : s.fs.get src = some (.file F)) (hseg : 0 < s.p.segmentLen)
+    (hv : ValidReq s.p.progress r) :
+    handleSegmentReq r s = .ok () (queued s (answer s.p rc req src dst F r)) := by
+  by_cases h0 : r = (0, 0)
+  · subst h0
+    rw [C08_metadata_request]
+    msimp [prepareMetadataPdu, hreq, PutReq.metadataOnly, hsrc, hdst, hrc, addPacket, queued, answer]
+  · obtain ⟨a, b⟩ := r
+    have hnz : ¬ (a = 0 ∧ b = 0) := by intro h; exact h0 (by rw [h.1, h.2])
+    rcases hv with hv | hv
+    · exact absurd hv h0
+    · rw [C08_valid_request_served s req src F a b hreq hsrc hfile hseg hnz hv.1 hv.2]
+      simp [queued, answer, h0]
+
+/-- **Any number of valid requests**: the loop over the NAK's requests appends, in the order of the
+requests, the answer to each — and changes nothing else: progress, EOF condition, step, timers. -/
+theorem C08_requests_answered (rc : RemoteCfg) (req : PutReq) (src dst : String) (F : List UInt8) :
+    ∀ (reqs : List (Nat × Nat)) (s : SrcSt), s.putReq = some req → req.src = some src → req.dst = some dst →
+      s.p.remoteCfg = some rc → s.fs.get src = some (.file F) → 0 < s.p.segmentLen →
+      (∀ r ∈ reqs, ValidReq s.p.progress r) →
+      handleSegmentReqs reqs s = .ok () (queued s (reqs.flatMap (answer s.p rc req src dst F))) := by
+  intro reqs
+  induction reqs with
+  | nil => intro s _ _ _ _ _ _ _; msimp [handleSegmentReqs, queued]
+  | cons r reqs ih =>
+    intro s hreq hsrc hdst hrc hfile hseg hv
+    have h1 := C08_request_answered s rc req src dst F r hreq hsrc hdst hrc hfile hseg (hv r List.mem_cons_self)
+    have h2 := ih (queued s (answer s.p rc req src dst F r)) hreq hsrc hdst hrc hfile hseg
+      (fun q hq => hv q (List.mem_cons_of_mem _ hq))
+    unfold handleSegmentReqs
+    msimp [h1]
+    rw [h2, queued_queued]
+    simp [queued, List.flatMap_cons]
+
+/-- **The first invalid request stops the loop**: the requests before it have been answered (their PDUs
+are queued and are data of the file), the exception `InvalidNakPdu` is raised, nothing is emitted for the
+invalid request or any later one, and the sender's step and progress are untouched. -/
+theorem C08_first_invalid_stops (rc : RemoteCfg) (req : PutReq) (src dst : String) (F : List UInt8)
+    (good rest : List (Nat × Nat)) (a b : Nat) (s : SrcSt) (hreq : s.putReq = some req) (hsrc : req.src = some src)
+    (hdst : req.dst = some dst) (hrc : s.p.remoteCfg = some rc) (hfile : s.fs.get src = some (.file F))
+    (hseg : 0 < s.p.segmentLen) (hv : ∀ r ∈ good, ValidReq s.p.progress r) (hnz : ¬(a = 0 ∧ b = 0))
+    (hbad : b < a ∨ a > s.p.progress ∨ b > s.p.progress) :
+    handleSegmentReqs (good ++ (a, b) :: rest) s =
+      .error .invalidNakPdu (queued s (good.flatMap (answer s.p rc req src dst F))) := by
+  induction good generalizing s with
+  | nil =>
+    have := C08_invalid_request_rejected s a b hnz hbad
+    unfold handleSegmentReqs
+    msimp [this, queued]
+  | cons r good ih =>
+    have h1 := C08_request_answered s rc req src dst F r hreq hsrc hdst hrc hfile hseg (hv r List.mem_cons_self)
+    have h2 := ih (queued s (answer s.p rc req src dst F r)) hreq hrc hfile hseg
+      (fun q hq => hv q (List.mem_cons_of_mem _ hq)) hbad
+    simp only [List.cons_append]
+    unfold handleSegmentReqs
+    msimp [h1]
+    rw [h2, queued_queued]
+    simp [queued, List.flatMap_cons]
+
+/-- the steps in which the sender of an acknowledged transfer accepts a NAK -/
+def NakStep (s : SrcSt) : Prop :=
+  (s.step = .SENDING_FILE_DATA ∧ s.p.progress ≠ s.p.fileSize) ∨ s.step = .WAITING_FOR_EOF_ACK ∨
+    s.step = .WAITING_FOR_FINISHED
+
+/-- the sender after the call that served a NAK -/
+def afterNak (s : SrcSt) (l : List Pdu) : SrcSt :=
+  { s with queue := s.queue ++ l, numReady := s.numReady + l.length, stepBefore := some s.step,
+           step := .RETRANSMITTING }
+
+/-- **The whole call.**  An admitted NAK PDU with any number of valid requests arrives while the
+sender streams file data, waits for the ACK of its EOF or waits for the Finished PDU: the call queues
+exactly the answers to the requests, in order, and nothing else — no original File Data PDU, no EOF —;
+it remembers the step it was in; progress, EOF condition, timers, counters, indications and filestore
+are untouched. -/
+theorem C08_nak_call (env : Env) (s : SrcSt) (rc : RemoteCfg) (req : PutReq) (src dst : String) (F : List UInt8)
+    (h : Hdr) (sos eos : Nat) (reqs : List (Nat × Nat))
+    (hadm : checkInsertedPacket env (.nak h sos eos reqs) s = .ok () s)
+    (hb : s.state = .busy) (hq : s.queue = []) (hmode : s.p.conf.mode = .ack) (hstep : NakStep s)
+    (hreq : s.putReq = some req) (hsrc : req.src = some src) (hdst : req.dst = some dst)
+    (hrc : s.p.remoteCfg = some rc) (hfile : s.fs.get src = some (.file F)) (hseg : 0 < s.p.segmentLen)
+    (hv : ∀ r ∈ reqs, ValidReq s.p.progress r) :
+    stateMachine env (some (.nak h sos eos reqs)) s =
+      .ok () (afterNak s (reqs.flatMap (answer s.p rc req src dst F))) := by
+  have hserve := C08_requests_answered rc req src dst F reqs s hreq hsrc hdst hrc hfile hseg hv
+  rcases hstep with ⟨hs, hp⟩ | hs | hs
+  · msimp [stateMachine, hadm, hb, fsmNonIdle, fsmAdvancementAfterPacketsWereSent, hq, hs, hp, hreq,
+      fsmFromSendingFileData, sendingFileDataFsm, transmissionMode, hmode, handleRetransmission, hserve, queued,
+      afterNak]
+  · msimp [stateMachine, hadm, hb, fsmNonIdle, fsmAdvancementAfterPacketsWereSent, hq, hs, hreq,
+      fsmFromSendingFileData, fsmFromSendingEof, fsmFromWaitingForEofAck, handleWaitingForAck,
+      handleRetransmission, hserve, queued, afterNak, fsmFromWaitingForFinished, fsmFromNoticeOfCompletion]
+  · msimp [stateMachine, hadm, hb, fsmNonIdle, fsmAdvancementAfterPacketsWereSent, hq, hs, hreq,
+      fsmFromSendingFileData, fsmFromSendingEof, fsmFromWaitingForEofAck, fsmFromWaitingForFinished,
+      handleWaitForFinish, transmissionMode, hmode, handleRetransmission, hserve, queued, afterNak,
+      fsmFromNoticeOfCompletion]
+
+/-- **A NAK with an invalid request**: the call raises `InvalidNakPdu`; what it queued before reaching
+the invalid request are answers to valid requests (file data inside what was sent); the sender's step
+is unchanged, so the next call continues the transfer. -/
+theorem C08_nak_call_invalid (env : Env) (s : SrcSt) (rc : RemoteCfg) (req : PutReq) (src dst : String)
+    (F : List UInt8) (h : Hdr) (sos eos : Nat) (good rest : List (Nat × Nat)) (a b : Nat)
+    (hadm : checkInsertedPacket env (.nak h sos eos (good ++ (a, b) :: rest)) s = .ok () s)
+    (hb : s.state = .busy) (hq : s.queue = []) (hmode : s.p.conf.mode = .ack) (hstep : NakStep s)
+    (hreq : s.putReq = some req) (hsrc : req.src = some src) (hdst : req.dst = some dst)
+    (hrc : s.p.remoteCfg = some rc) (hfile : s.fs.get src = some (.file F)) (hseg : 0 < s.p.segmentLen)
+    (hv : ∀ r ∈ good, ValidReq s.p.progress r) (hnz : ¬(a = 0 ∧ b = 0))
+    (hbad : b < a ∨ a > s.p.progress ∨ b > s.p.progress) :
+    stateMachine env (some (.nak h sos eos (good ++ (a, b) :: rest))) s =
+      .error .invalidNakPdu (queued s (good.flatMap (answer s.p rc req src dst F))) := by
+  have hserve := C08_first_invalid_stops rc req src dst F good rest a b s hreq hsrc hdst hrc hfile hseg hv hnz hbad
+  rcases hstep with ⟨hs, hp⟩ | hs | hs
+  · msimp [stateMachine, hadm, hb, fsmNonIdle, fsmAdvancementAfterPacketsWereSent, hq, hs, hp, hreq,
+      fsmFromSendingFileData, sendingFileDataFsm, transmissionMode, hmode, handleRetransmission, hserve, queued]
+  · msimp [stateMachine, hadm, hb, fsmNonIdle, fsmAdvancementAfterPacketsWereSent, hq, hs, hreq,
+      fsmFromSendingFileData, fsmFromSendingEof, fsmFromWaitingForEofAck, handleWaitingForAck,
+      handleRetransmission, hserve, queued]
+  · msimp [stateMachine, hadm, hb, fsmNonIdle, fsmAdvancementAfterPacketsWereSent, hq, hs, hreq,
+      fsmFromSendingFileData, fsmFromSendingEof, fsmFromWaitingForEofAck, fsmFromWaitingForFinished,
+      handleWaitForFinish, transmissionMode, hmode, handleRetransmission, hserve, queued]
+
+/-- **Resumption, as a whole call.**  Once the retransmitted PDUs have been retrieved, the next call
+(with any packet or none) behaves exactly like that call on the sender as it was before the NAK —
+same step, same progress, same timers —: no original File Data PDU is skipped or repeated, the EOF is
+unchanged, and a further NAK is served from there. -/
+theorem C08_resume_call (env : Env) (s : SrcSt) (st : SStep) (pkt : Option Pdu)
+    (hadm : ∀ pdu, pkt = some pdu → checkInsertedPacket env pdu s = .ok () s ∧
+      checkInsertedPacket env pdu { s with step := st } = .ok () { s with step := st })
+    (hb : s.state = .busy) (hstep : s.step = .RETRANSMITTING) (hq : s.queue = []) (hsb : s.stepBefore = some st)
+    (hst : NakStep { s with step := st }) :
+    stateMachine env pkt s = stateMachine env pkt { s with step := st } := by
+  obtain ⟨sta, stp, nr, p, sb, pr, q, fs, fl, pv, ind, flt⟩ := s
+  simp only at hb hstep hq hsb hst hadm ⊢
+  subst hb hstep hq hsb
+  have hadv := C08_resume ⟨.busy, .RETRANSMITTING, nr, p, some st, pr, [], fs, fl, pv, ind, flt⟩ st rfl rfl rfl
+  have hadv2 : fsmAdvancementAfterPacketsWereSent ⟨.busy, st, nr, p, some st, pr, [], fs, fl, pv, ind, flt⟩ =
+      .ok () ⟨.busy, st, nr, p, some st, pr, [], fs, fl, pv, ind, flt⟩ := by
+    rcases hst with ⟨hs, hp⟩ | hs | hs <;> simp only at hs
+    · simp only at hp
+      msimp [fsmAdvancementAfterPacketsWereSent, hs, hp]
+    · msimp [fsmAdvancementAfterPacketsWereSent, hs]
+    · msimp [fsmAdvancementAfterPacketsWereSent, hs]
+  simp only at hadv
+  cases pkt with
+  | none =>
+    unfold stateMachine fsmNonIdle
+    simp only [bind, EStateM.bind, pure, EStateM.pure, get, getThe, MonadStateOf.get, EStateM.get, reduceCtorEq,
+      ↓reduceIte, hadv, hadv2]
+  | some pdu =>
+    obtain ⟨a1, a2⟩ := hadm pdu rfl
+    unfold stateMachine fsmNonIdle
+    simp only [bind, EStateM.bind, pure, EStateM.pure, get, getThe, MonadStateOf.get, EStateM.get, a1, a2, reduceCtorEq,
+      ↓reduceIte, hadv, hadv2]
+
+/-! ### non-vacuity: an acknowledged transfer of 9 bytes in segments of 4; after the EOF a NAK asks for
+the Metadata, the middle tile and the first two bytes; then one with an inverted request in second place -/
+
+def exEnvA : Env := ⟨⟨⟨1, 2⟩, true, true, true, true,
+  [⟨⟨2, 2⟩, some 4, 64, false, false, .ack, 0, 1000, 2, 2, false, true, 1000, 2⟩], 1000⟩, 0⟩
+
+def exHdrA : Hdr := ⟨.toSend, .ack, false, false, ⟨1, 2⟩, ⟨2, 2⟩, ⟨0, 2⟩⟩
+def exConfA : Hdr := ⟨.toRecv, .ack, false, false, ⟨1, 2⟩, ⟨2, 2⟩, ⟨0, 2⟩⟩
+
+/-- the sender after put request and five rounds (Metadata, three tiles, EOF): waiting for the ACK -/
+def exWaiting : Option SrcSt :=
+  match putRequest exEnvA C07.exReq C07.exInit with
+  | .ok _ s => (C07.rounds exEnvA 5 s).map (·.2)
+  | .error _ _ => none
+
+example :
+    (exWaiting.map fun s =>
+      match stateMachine exEnvA (some (.nak exHdrA 0 9 [(0, 0), (4, 8), (0, 2)])) s with
+      | .ok _ s' => (s'.queue, s'.step, s'.stepBefore, s'.p.progress)
+      | .error _ _ => ([], .IDLE, none, 0)) =
+    some ([mkMd exConfA false 0 9 (some "/f") (some "/g") (some []), mkFd exConfA 4 [5, 6, 7, 8],
+           mkFd exConfA 0 [1, 2]], .RETRANSMITTING, some .WAITING_FOR_EOF_ACK, 9) := by
+  decide +kernel
+
+example :
+    (exWaiting.map fun s =>
+      match stateMachine exEnvA (some (.nak exHdrA 0 9 [(4, 8), (8, 4), (0, 2)])) s with
+      | .ok _ _ => none
+      | .error e s' => some (e, s'.queue, s'.step)) =
+    some (some (.invalidNakPdu, [mkFd exConfA 4 [5, 6, 7, 8]], .WAITING_FOR_EOF_ACK)) := by
+  decide +kernel
+
 end Cfdp.Source.C08
